@@ -153,8 +153,6 @@ func parseOneCall(script []byte) (Call, bool) {
 	return Call{Contract: sh, Method: m, Args: args}, true
 }
 
-func rpcErr(code int64, msg string) *neorpc.Error { return neorpc.NewInternalServerError(msg) }
-
 func (c *Chain) handle(req *neorpc.Request) (*neorpc.Response, error) {
 	resp := &neorpc.Response{HeaderAndError: neorpc.HeaderAndError{Header: neorpc.Header{
 		JSONRPC: req.JSONRPC, ID: json.RawMessage(strconv.FormatUint(req.ID, 10))}}}
